@@ -59,10 +59,20 @@ def pairs(d):
                                                       "n": {"$ref": meta_url + "#/properties/maxLength"}}},
                     store=({meta_url: {"properties": {"maxLength": override}}} if override is not None else {}), remote={},
                     instances=[inst], refs=[], fmt=None)
+    # the very same instance OBJECT handed to two validators (validation never modifies it, so sharing it is legitimate)
+    instS = {"a": 1.5, "b": {"c": None}, "r": [], "z": {}}
+    E1 = dict(member({"type": "integer"}, {"type": "string"}, {"type": "string"}, instS), share=True)
+    E2 = dict(member({"type": "string"}, {"type": "integer"}, {"type": "integer"}, instS), share=True)
     M1 = meta_member("meta-override-1", {"type": "string"}, {"m": 3, "n": "x"})
     M2 = meta_member("meta-override-2", {"type": "null"}, {"m": "x", "n": None})
     M3 = meta_member("meta-default", None, {"m": "x", "n": -1})
-    return [[A, B], [B, A], [A3, B3, C], [rec, rec2], [A, rec], [D1, D2], [M1, M3], [M3, M2], [M2, M1]]
+    return [[A, B], [B, A], [A3, B3, C], [rec, rec2], [A, rec], [D1, D2], [M1, M3], [M3, M2], [M2, M1], [E1, E2]]
+
+
+def instances_for(grp):
+    """one instance per member; members marked `share` all receive the SAME object"""
+    shared = copy.deepcopy(grp[0]["instances"][0]) if all(m.get("share") for m in grp) else None
+    return [shared if shared is not None else copy.deepcopy(m["instances"][0]) for m in grp]
 
 
 def cls_meta_url(d):
@@ -162,10 +172,11 @@ def run_scheduled(d, grp, sched):
         return cls(schema, resolver=res, format_checker=checker_for(js, m.get("fmt")))
     vals = [make(i + 1, m) for i, m in enumerate(grp)]
     out = [None] * len(grp)
+    insts = instances_for(grp)
 
     def work(i):
         try:
-            out[i] = [scen.canon(e) for e in vals[i].iter_errors(copy.deepcopy(grp[i]["instances"][0]))]
+            out[i] = [scen.canon(e) for e in vals[i].iter_errors(insts[i])]
         except Exception as e:  # noqa
             out[i] = "%s: %s" % (type(e).__name__, str(e)[:80])
         finally:
@@ -210,7 +221,7 @@ def main(args):
     ck.rule = ("groups of 2-3 validator objects per draft whose schemas collide on every key a shared cache could use (same base "
                "URI, same $ref strings designating different definitions, same nested id and relative reference, same "
                "remote URL served by different stores, same pattern, same format name with different checker functions, "
-               "recursive schemas, the draft's metaschema URL overridden differently in each member's store); each member's errors when running alone are computed in a freshly spawned process of its own; the script of each member's iteration is measured on the real code, TLC enumerates ALL "
+               "recursive schemas, the draft's metaschema URL overridden differently in each member's store, two validators given the very same instance object); each member's errors when running alone are computed in a freshly spawned process of its own; the script of each member's iteration is measured on the real code, TLC enumerates ALL "
                "interleavings of next() steps (MC_Interleave: invariant Independent; negative control SharedStack must be "
                "violated), and every maximal schedule is replayed on real iterators and compared with the solo runs; plus "
                "event-level thread schedules: TLC enumerates every schedule of resolver events with <= %d preemptions (MC_Sched) and each is replayed on real threads whose resolvers block before every event until granted the turn; and unscheduled threaded runs (1 microsecond switch interval) compared with the solo runs." % (1 if quick else 2) + " Non-trivial: a "
@@ -262,7 +273,7 @@ def main(args):
         gi = ex["g"] - 1
         d, grp, table = meta[gi]
         vals = [build(d, m, real=True) for m in grp]
-        gens = [v.iter_errors(copy.deepcopy(m["instances"][0])) for (v, _), m in zip(vals, grp)]
+        gens = [v.iter_errors(I) for (v, _), I in zip(vals, instances_for(grp))]
         got = [[] for _ in grp]
         crashed = None
         for n in ex["sched"]:
@@ -318,11 +329,12 @@ def main(args):
                 vals = [build(d, m, real=True) for m in grp]
                 res = [None] * len(grp)
                 barrier = threading.Barrier(len(grp))
+                insts = instances_for(grp)
 
                 def work(i):
                     try:
                         barrier.wait()
-                        res[i] = [scen.canon(e) for e in vals[i][0].iter_errors(copy.deepcopy(grp[i]["instances"][0]))]
+                        res[i] = [scen.canon(e) for e in vals[i][0].iter_errors(insts[i])]
                     except Exception as e:  # noqa
                         res[i] = "%s: %s" % (type(e).__name__, str(e)[:80])
                 ts = [threading.Thread(target=work, args=(i,)) for i in range(len(grp))]
